@@ -10,6 +10,8 @@ import argparse, importlib, json, os, sys, traceback
 sys.path.insert(0, os.path.dirname(os.path.abspath(__file__)))
 sys.path.insert(0, os.path.join(os.path.dirname(os.path.abspath(__file__)), 'gen'))
 os.environ.setdefault('KYUPY_VERIF', '1')
+if os.environ.get('KYUPY_REPO'):   # development aid: run against another checkout of kyupy (default: /repo, editable install)
+    sys.path.insert(0, os.path.join(os.environ['KYUPY_REPO'], 'src'))
 
 
 def main():
